@@ -5,7 +5,7 @@ from ..common import *
 ID = "C12"
 LEVEL = "proof"
 LEAN_MODULE = "Frost.Props.C12"
-THEOREMS = ["Frost.C12.decVarint_encVarint", "Frost.C12.decU16_encU16", "Frost.C12.decUsize_encUsize", "Frost.C12.header_accept_iff", "Frost.C12.header_reject", "Frost.C12.keyPackage_needs_header", "Frost.C12.rt_commitments", "Frost.C12.rt_nonces", "Frost.C12.rt_package", "Frost.C12.rt_secretShare", "Frost.C12.rt_keyPackage", "Frost.C12.rt_publicKeyPackage", "Frost.C12.rt_round1Package", "Frost.C12.rt_round2Package", "Frost.C12.rt_round1Secret", "Frost.C12.rt_round2Secret", "Frost.C12.default_signature_laws", "Frost.C12.ofList_sorted", "Frost.C12.primScalar_canonical", "Frost.C12.primElem_canonical", "Frost.C12.primScalar_injective", "Frost.C12.primElem_injective", "Frost.C12.signature_canonical", "Frost.C12.signature_wrong_length", "Frost.C12.identifier_rejects_zero", "Frost.C12.signingKey_rejects_zero", "Frost.C12.prim_wrong_length", "Frost.C12.fq_laws_le", "Frost.C12.fq_laws_be", "Frost.C12.ed448_scalar_last_byte", "Frost.C12.sec1_tag", "Frost.C12.sec1_canonical", "Frost.C12.p256_canon", "Frost.C12.secp256k1_canon", "Frost.C12.ed448_canon", "Frost.C12.toy31_instance", "Frost.C12.json_keyPackage_none_iff", "Frost.C12.json_commitments_none_iff"]
+THEOREMS = ["Frost.C12.decVarint_encVarint", "Frost.C12.decU16_encU16", "Frost.C12.decUsize_encUsize", "Frost.C12.header_accept_iff", "Frost.C12.header_reject", "Frost.C12.keyPackage_needs_header", "Frost.C12.rt_commitments", "Frost.C12.rt_nonces", "Frost.C12.rt_package", "Frost.C12.rt_secretShare", "Frost.C12.rt_keyPackage", "Frost.C12.rt_publicKeyPackage", "Frost.C12.rt_round1Package", "Frost.C12.rt_round2Package", "Frost.C12.rt_round1Secret", "Frost.C12.rt_round2Secret", "Frost.C12.default_signature_laws", "Frost.C12.ofList_sorted", "Frost.C12.primScalar_canonical", "Frost.C12.primElem_canonical", "Frost.C12.primScalar_injective", "Frost.C12.primElem_injective", "Frost.C12.signature_canonical", "Frost.C12.signature_wrong_length", "Frost.C12.identifier_rejects_zero", "Frost.C12.signingKey_rejects_zero", "Frost.C12.prim_wrong_length", "Frost.C12.fq_laws_le", "Frost.C12.fq_laws_be", "Frost.C12.ed448_scalar_last_byte", "Frost.C12.sec1_tag", "Frost.C12.sec1_canonical", "Frost.C12.p256_canon", "Frost.C12.secp256k1_canon", "Frost.C12.ed448_canon", "Frost.C12.ed25519_canon", "Frost.C12.ed25519_noncanonical_rejected", "Frost.C12.p25519_prime", "Frost.C12.toy31_instance", "Frost.C12.json_keyPackage_none_iff", "Frost.C12.json_commitments_none_iff"]
 RULE = ("one case = one (suite, wire type, value) round trip in binary or JSON form, one deviation of a container encoding (header byte, truncation, bit flip, byte substitution, trailing bytes), "
         "or one byte string offered to a fixed-size primitive decoder (valid encoding, single-bit / single-byte deviation, every leading tag byte, special values, wrong lengths, random strings); "
         "non-trivial = the decoder ran on the bytes (every case); distinct = hash of the request")
@@ -289,6 +289,17 @@ def primitives(sess, suite, prim, thorough):
             prim_case(sess, suite, t, b, False, "the identity element (%s)" % name)
         for name, b in low_order(suite):
             prim_case(sess, suite, t, b, False, "a point outside the prime-order group (%s)" % name)
+        if suite == "ed25519":
+            # Ed25519's decoder has no explicit canonicity test: it relies on every non-canonical encoding being
+            # undecodable, of small order or of mixed order. That set is finite and tiny, so it is enumerated IN FULL:
+            # the 19 non-reduced y (p <= y < 2^255) with either sign bit, and x = 0 with the sign bit set.
+            p25 = 2 ** 255 - 19
+            for y in range(p25, 2 ** 255):
+                for sign in (0, 1):
+                    prim_case(sess, suite, t, (y + (sign << 255)).to_bytes(32, "little"), False, "the non-canonical encoding y = p + %d, sign bit %d" % (y - p25, sign))
+            for y in (1, p25 - 1):
+                prim_case(sess, suite, t, (y + (1 << 255)).to_bytes(32, "little"), False, "the non-canonical encoding x = 0 with the sign bit set (y = %s)" % ("1" if y == 1 else "-1"))
+            sess.count("ed25519-noncanonical-exhaustive", 40)
         for ln in (0, 1, el - 1, el + 1, 2 * el, 65):
             prim_case(sess, suite, t, bytes(rng.randrange(256) for _ in range(ln)), False, "a string of length %d" % ln)
         for _ in range(60 if thorough else 12):
@@ -372,5 +383,5 @@ def search(sess, disagreements):
 
 LEVEL_TEXT = ("Lean 4 theorems over a model of the postcard wire format of every package type (Frost.Model.Wire): varint encode/decode round trip for u16 and usize (decVarint_encVarint, unbounded induction over the byte count), the header is accepted iff it is exactly version 0 followed by this ciphersuite's 4-byte id (header_accept_iff: any other version or another suite's id is rejected), and decode(encode v ++ rest) = (v, rest) for all twelve container types (rt_*), including the sorted-map rebuild (ofList_sorted) and the lenient trailing min_signers of the public key package; for the fixed-size primitives: a decoder accepts a byte string only if re-encoding the result reproduces it (primScalar_canonical, primElem_canonical, signature_canonical), zero identifiers / signing keys and wrong lengths are rejected; the scalar codec laws are proved for little- and big-endian encodings of any modulus and width (fq_laws_le/be: out-of-range rejected, canonical), and the SEC1 decoder accepts tags 02/03 only (sec1_tag). "
               "Correspondence on all eight suites, byte-for-byte with the real postcard output: every type serialised and decoded; every header byte, every truncation, bit flips, byte substitutions and trailing bytes on container encodings; for each primitive decoder valid encodings, all bits of the first and last byte (every bit in the thorough tier), every leading tag byte, special scalars (0, q-1, q, q+1, all ones), identity and low-order points, wrong lengths, random strings, with the canonicity oracle (accepted => re-encoding reproduces the input). JSON form: round-trip and rejection oracle on the real code.")
-LEVEL_NOTE = ("Element codec laws for Edwards / ristretto decompression are validated by correspondence, not proved; serde_json parsing is not modelled (oracle only). Trusted: postcard/serde/serdect behaviour as modelled in Frost.Model.Wire; as C01 otherwise.")
+LEVEL_NOTE = ("Element canonicity is proved for SEC1, Ed448 and Ed25519 (ed25519_canon, using the kernel-checked primality of 2^255-19 and kernel evaluation of the complete set of 40 non-canonical strings); for ristretto255 decompression it is validated by correspondence, not proved; serde_json parsing is not modelled (oracle only). Trusted: postcard/serde/serdect behaviour as modelled in Frost.Model.Wire; as C01 otherwise.")
 TECHNIQUE = "Lean 4 proof (codec round-trip and canonicity laws over a postcard model) + differential correspondence with fault streams + canonicity oracle"
